@@ -1,5 +1,6 @@
 import GqlVerif.Base.Json
 import Driver.C16
+import Driver.C02
 import Driver.C05
 import Driver.C06
 import Driver.C08
@@ -13,6 +14,7 @@ def dispatch (op : String) (args : Json) : Option Json :=
   | "c06.validate" => some (c06validate args)
   | "c08.validate" => some (c08validate args)
   | "c08.legacy" => some (c08legacy args)
+  | "c02.render" => some (c02render args)
   | "c05.lex" => some (c05lex args)
   | "c05.limits" => some (c05limits args)
   | _ => none
